@@ -483,6 +483,24 @@ fn c12_probe(prog: &Prog, map: &Arc<FMap>, pd: Arc<Mutex<ProbeData>>) -> (ProbeS
             (a, b)
         })
         .map_err(|e| format!("equality comparison: {}", e))?;
+        ctx.isolated(PROBE_BUDGET * 2, || map.pin() == map.pin()).map_err(|e| format!("equality comparison of pinned references: {}", e))?;
+        ctx.isolated(PROBE_BUDGET * 4, || {
+            let g2 = map.guard();
+            map.with_guard(&g2) == *map && *map == map.with_guard(&g2)
+        })
+        .map_err(|e| format!("equality comparison between a map and a reference wrapper: {}", e))?;
+        // the other read-only entry points: Debug, serialisation, indexing
+        ctx.isolated(PROBE_BUDGET * 2, || format!("{:?}", map).len() + format!("{:?}", map.pin()).len()).map_err(|e| format!("Debug: {}", e))?;
+        ctx.isolated(PROBE_BUDGET * 2, || serde_json::to_string(&*map).map(|s| s.len()).unwrap_or(0) + serde_json::to_string(&map.pin()).map(|s| s.len()).unwrap_or(0)).map_err(|e| format!("Serialize: {}", e))?;
+        if let Some(t) = keys.first() {
+            let k = K::probe(*t);
+            ctx.isolated(PROBE_BUDGET, || {
+                let r = map.pin();
+                // Index panics on a missing key by contract
+                std::panic::catch_unwind(std::panic::AssertUnwindSafe(|| r[&k].id)).ok()
+            })
+            .map_err(|e| format!("Index on the pinned reference: {}", e))?;
+        }
         pd.lock().unwrap().obs.extend(obs);
         Ok(())
     });
